@@ -255,12 +255,24 @@ fn build_raw(rng: &mut StdRng, l: &Value) -> Built {
             let info = range(marks[0]);
             let nrules = items_of(&secs["rules"]["entries"]).len();
             let k = lay["datagrams"].as_u64().unwrap() as usize;
-            let deal = |head: u8, entries: &[(usize, usize)]| -> Vec<Vec<u8>> {
+            // the entries of a list are dealt over k datagrams at random boundaries (a server fills each datagram as far as its
+            // strings allow; nothing in the format fixes where a list is cut); every datagram carries at least one entry
+            let deal = |rng: &mut StdRng, head: u8, entries: &[(usize, usize)]| -> Vec<Vec<u8>> {
                 let mut out = Vec::new();
                 let k = k.min(entries.len().max(1));
+                let mut cuts: Vec<usize> = if rng.gen_bool(0.5) {
+                    (1 .. k).map(|d| d * entries.len() / k).collect()
+                } else {
+                    let mut c: Vec<usize> = (1 .. entries.len()).collect();
+                    c.shuffle(rng);
+                    c.truncate(k - 1);
+                    c.sort();
+                    c
+                };
+                cuts.insert(0, 0);
+                cuts.push(entries.len());
                 for d in 0 .. k {
-                    let lo = d * entries.len() / k;
-                    let hi = (d + 1) * entries.len() / k;
+                    let (lo, hi) = (cuts[d], cuts[d + 1]);
                     let mut b = vec![0x80, 0, 0, 0, head];
                     for m in &entries[lo .. hi] {
                         b.extend(range(*m));
@@ -269,8 +281,8 @@ fn build_raw(rng: &mut StdRng, l: &Value) -> Built {
                 }
                 out
             };
-            let rules = deal(1, &marks[1 .. 1 + nrules]);
-            let players = deal(2, &marks[1 + nrules ..]);
+            let rules = deal(rng, 1, &marks[1 .. 1 + nrules]);
+            let players = deal(rng, 2, &marks[1 + nrules ..]);
             Built {
                 batches: vec![vec![info], rules, players],
                 tcp: false,
